@@ -110,6 +110,28 @@ theorem mutate_shape (hp : Heap) (op : Op) (h : Nat) (f : MH → Except MH.Err M
         | error e => exact .same
         | ok v => exact .write h c cell v hr hm hcid hcell hf'
 
+theorem mutateP_shape (hp : Heap) (op : Op) (h : Nat) (f : MH → MH × Res)
+    (hr : receiver op = some h) (hm : isMutator op = true) :
+    Shape hp op (hp.mutateP h f).1 := by
+  unfold Heap.mutateP
+  split
+  · exact .same
+  · next c hcid =>
+    split
+    · exact .same
+    · next cell hcell =>
+      by_cases hf : cell.frozen = true
+      · simp only [hf, if_true]; exact .same
+      · have hf' : cell.frozen = false := by simpa using hf
+        simp only [hf', Bool.false_eq_true, if_false]
+        exact .write h c cell _ hr hm hcid hcell hf'
+
+theorem mutateP_frozen (hp : Heap) (h : Nat) (f : MH → MH × Res) (cell : Cell)
+    (hc : hp.cell h = some cell) (hf : cell.frozen = true) :
+    hp.mutateP h f = (hp, .err "TypeError") := by
+  obtain ⟨c, hcid, hcell⟩ := cell_eq hp h cell hc
+  simp [Heap.mutateP, hcid, hcell, hf]
+
 theorem fresh_shape (hp : Heap) (op : Op) (r : Nat) (x : Except MH.Err MH) (fr : Bool)
     (hr : receiver op = none) (hm : isMutator op = false) :
     Shape hp op (hp.fresh r x fr).1 := by
@@ -140,6 +162,8 @@ theorem step_shape (hp : Heap) (op : Op) : Shape hp op (step hp op).1 := by
     · exact mutate_shape _ _ _ _ rfl rfl
     · exact .same
   | setAbundances h ps c => exact mutate_shape _ _ _ _ rfl rfl
+  | addSeq h sq f => exact mutateP_shape _ _ _ _ rfl rfl
+  | addProt h sq => exact mutateP_shape _ _ _ _ rfl rfl
   | setTrack h b =>
     simp only [step]
     split
@@ -343,6 +367,10 @@ theorem frozen_immutable' (hp : Heap) (op : Op) (h : Nat) (cell : Cell)
     simp only [receiver, Option.some.injEq] at hr
     subst hr
     simp only [step, mutate_frozen hp _ _ cell hc hf]
+  | addSeq h' _ _ | addProt h' _ =>
+    simp only [receiver, Option.some.injEq] at hr
+    subst hr
+    simp only [step, mutateP_frozen hp _ _ cell hc hf]
   | _ => simp [isMutator] at hm
 
 theorem frozen_refused' (hp : Heap) (op : Op) (h : Nat) (cell : Cell)
@@ -367,6 +395,10 @@ theorem frozen_refused' (hp : Heap) (op : Op) (h : Nat) (cell : Cell)
     simp only [receiver, Option.some.injEq] at hr
     subst hr
     simp only [step, mutate_frozen hp _ _ cell hc hf]
+  | addSeq h' _ _ | addProt h' _ =>
+    simp only [receiver, Option.some.injEq] at hr
+    subst hr
+    simp only [step, mutateP_frozen hp _ _ cell hc hf]
   | _ => simp [isMutator] at hm
 
 /-- a frozen cell is left exactly as it is by every operation -/
